@@ -1,10 +1,11 @@
 import Nstd.Variant.Val
+import Nstd.Variant.IeeeRat
 /-
   The instance of `DblSem` used by the compiled driver: IEEE-754 binary64 on the 64-bit
   pattern, in exact integer arithmetic (round-to-nearest-even for `(double)n`, `atof` and
   `printf("%f")`).  The general theorems of the area hold for every `DblSem`; about this instance
   `LemmasIeee.lean` proves that `dOfInt` is the correctly rounded integer conversion and that `atof` of a plain
-  integer numeral is; the rest of `atof` and `%f` are validated against the real code and against Python's floats by the correspondence run only.
+  integer numeral is; `LemmasAtofFrac.lean` that `atof` of a decimal text with a fraction / exponent is (negative decimal exponent); the rest of `atof` and `%f` are validated against the real code and against Python's floats by the correspondence run only.
 
   `ofStr` covers what `strtod` accepts: decimal with exponent, hexadecimal floats, inf, nan.
 -/
@@ -161,7 +162,7 @@ def dDecimal (sg : Nat) (s : Str) : Nat :=
     else if e10 > 400 then sg + 2047 * 2 ^ 52
     else if e10 < -800 then sg
     else if e10 ≥ 0 then sg + dOfRat (dv * 10 ^ e10.toNat) 1
-    else sg + dOfRat dv (10 ^ (-e10).toNat)
+    else sg + Rat.dOfRatQ dv (10 ^ (-e10).toNat)      -- checked grid exponent (IeeeRat.lean), proved correctly rounded
 
 /-- what follows the optional sign -/
 def dOfStrMag (sg : Nat) (s : Str) : Nat :=
